@@ -12,8 +12,9 @@ EXPLANATION = (
     "nowhere explicitly and are required only by AuthorizedClient; the recipient passed to send is the query item itself. "
     "R3: every dependent-event send is dominated by the `Some` edge of that client's Option<&ClientTicks> and uses those "
     "ticks; the `None` edge sends nothing. R4: send_independent_event is control-dependent on `self.independent`, whose only "
-    "writers are the make_*_independent registrations (and the constructor's `false`). R5 = C14.R4 (handshake).")
-NOT_DECIDED = "that from the tick a client becomes authorized it is sent the *complete* visible state (behaviour of the first full send)"
+    "writers are the make_*_independent registrations (and the constructor's `false`). R5 = C14.R4 (handshake). R6: first-sight completeness (rules/first_sight.py): a client that does not hold an entity yet is written "
+    "every replicated component - no skip between the component iteration and the per-client pass, insertion on every path from the unknown-entity outcome.")
+NOT_DECIDED = "that the bytes of the first full send decode to the server's values (fidelity of user serialisers); completeness is decided structurally by R6 only"
 TRUSTED_BASE = ["Bevy queries yield only entities that have every non-optional component of the query", "required components are inserted together with the requiring component"] + C14.TRUSTED_BASE
 
 SEND = "bevy_replicon::shared::backend::replicon_server::RepliconServer::send"
